@@ -25,6 +25,7 @@ class FnSpec:
         self.entry = []      # text
         self.tail = []
         self.after = []      # (regex, text)
+        self.before = []     # (regex, text)
         self.loops = {}      # ordinal -> text
         self.loopbody = {}   # ordinal -> ghost text at start of loop body
         self.loopend = {}    # ordinal -> ghost text at end of loop body
@@ -65,6 +66,7 @@ def parse_vspec(path, specs):
         elif mode == "entry": cur.entry.append(t)
         elif mode == "tail": cur.tail.append(t)
         elif mode == "after": cur.after.append((arg, t))
+        elif mode == "before": cur.before.append((arg, t))
         elif mode == "loop": cur.loops[int(arg)] = t
         elif mode == "loopbody": cur.loopbody[int(arg)] = t
         elif mode == "loopend": cur.loopend[int(arg)] = t
@@ -95,7 +97,7 @@ def parse_vspec(path, specs):
                 key = (cur_file, impl, m.group(2))
                 if key in specs.fns: raise ExtractError("%s:%d: duplicate @fn %s" % (path, ln, key))
                 specs.fns[key] = cur
-            elif d in ("@requires", "@ensures", "@after", "@loop", "@loopbody", "@loopend"):
+            elif d in ("@requires", "@ensures", "@after", "@before", "@loop", "@loopbody", "@loopend"):
                 mode = d[1:]; arg = rest
             elif d in ("@entry", "@tail", "@attr"):
                 mode = d[1:]
@@ -137,6 +139,7 @@ class Ctx:
         self.dropped = {"comments": 0, "test_items": 0, "cfg_attrs": 0, "derive_attrs": 0, "allow_attrs": 0}
         self.fn_index = []       # dicts describing every fn emitted
         self.closure_n = 0
+        self.gen_axioms = []     # (file, enum, variant, source type, ctor suffix): `?` conversion facts for synthesised #[from] impls
         self.lifted = []
     def log(self, rule, file, line, before, after):
         self.rewrites.append({"rule": rule, "file": file, "line": line, "before": before[:200], "after": after[:200]})
@@ -221,6 +224,21 @@ def rule_body_text(ctx, file, s):
     s = sub("R-split", r"(\w+)\.split\('(.)'\)\.collect::<Vec<_>>\(\)", r"str_split_char(\1, '\2')", s)
     s = sub("R-add", r"\((\w+KeySeparator::default\(\)) \+ (&?\w+)\)", r"(std::ops::Add::add(\1, \2))", s)
     s = sub("R-underscore", r"\|_\|", "|_e|", s)
+    # R-vecslice: NAME[range].copy_from_slice(..) on a local `let mut NAME = vec![..]` -> NAME.as_mut_slice()[range]...
+    # (definition of `impl IndexMut<I> for Vec<T>`: index_mut(&mut **self, i)); vstd specifies the slice form only
+    for name in set(re.findall(r"let mut (\w+) = vec!\[", s)):
+        i = 0
+        while True:
+            m = re.search(r"\b%s\[" % re.escape(name), s[i:])
+            if not m: break
+            st = i + m.start(); ob = i + m.end() - 1
+            cb = find_matching(s, ob)
+            if ".." in s[ob:cb] and re.match(r"\s*\.copy_from_slice\(", s[cb + 1:]):
+                ctx.log("R-vecslice", file, 0, s[st:cb + 1], name + ".as_mut_slice()" + s[ob:cb + 1])
+                s = s[:st] + name + ".as_mut_slice()" + s[ob:]
+                i = cb + len(".as_mut_slice()")
+            else:
+                i = cb
     return s
 
 FOLD_SRC = re.compile(r"Self\((\w+)\.iter\(\)\.fold\((\w+), \|mut (\w+), (\w+)\| \{(.*?)\n\s*\3\n\s*\}\)\)", re.S)
@@ -466,6 +484,7 @@ class FileEmitter:
                 "impl vstd::std_specs::convert::FromSpecImpl<%s> for %s { open spec fn obeys_from_spec() -> bool { true } "
                 "open spec fn from_spec(source: %s) -> Self { %s::%s{source} } }\n" % (t, en, t, en, v, en, v, t, en, t, en, v))
             self.ctx.log("D-4-from", self.rel, it.line, m.group(0), "impl From<%s> for %s" % (t, en))
+            self.ctx.gen_axioms.append((self.rel, en, v, t, "{source: e}"))
         for m in re.finditer(r"(\w+)\s*\(\s*#\[from\]\s*([\w:]+)\s*\)", txt):
             v, t = m.group(1), m.group(2)
             self.extra.append(
@@ -473,6 +492,7 @@ class FileEmitter:
                 "impl vstd::std_specs::convert::FromSpecImpl<%s> for %s { open spec fn obeys_from_spec() -> bool { true } "
                 "open spec fn from_spec(source: %s) -> Self { %s::%s(source) } }\n" % (t, en, t, en, v, en, v, t, en, t, en, v))
             self.ctx.log("D-4-from", self.rel, it.line, m.group(0), "impl From<%s> for %s" % (t, en))
+            self.ctx.gen_axioms.append((self.rel, en, v, t, "(e)"))
 
     def companions_for_impl(self, it):
         """R-companion: vstd *SpecImpl companions for From/TryFrom/PartialEq/Add impls (obeys_* = false unless given in vspec items)."""
@@ -574,6 +594,10 @@ class FileEmitter:
             else:
                 b = body.replace("crate::core", "crate::rp_core")
                 if not ext:
+                    nkf = len(re.findall(r"\bKey(?:::<\d+>)?::from\(\s*&?\w", b)) - len(re.findall(r"\bKey(?:::<\d+>)?::from\(\s*(?:output|\*)", b))
+                    declared = int(spec.opts.get("keyfrom", 0)) if spec else 0
+                    if nkf != declared:
+                        raise ExtractError("call site needs contract: %s fn %s has %d Key::from(<slice>) call(s) but its contract declares keyfrom=%d (DESIGN 1.2)" % (self.rel, it.name, nkf, declared))
                     b = rule_fold(ctx, self.rel, b)
                     b = rule_body_text(ctx, self.rel, b)
                     b = self.weave_body(b, spec, it)
@@ -610,6 +634,15 @@ class FileEmitter:
                 start = e
             if hit is None:
                 raise ExtractError("lost anchor: %s:%d @after %s in fn %s" % (spec.src, spec.line, rx, it.name))
+            inner = inner[:hit] + "\n" + t + "\n" + inner[hit:]
+        for rx, t in spec.before:
+            stmts = self.stmt_ends(inner)
+            hit = None; start = 0
+            for e in stmts:
+                if re.search(rx, inner[start:e]): hit = start; break
+                start = e
+            if hit is None:
+                raise ExtractError("lost anchor: %s:%d @before %s in fn %s" % (spec.src, spec.line, rx, it.name))
             inner = inner[:hit] + "\n" + t + "\n" + inner[hit:]
         if spec.entry:
             inner = "\n" + "\n".join(spec.entry) + "\n" + inner
@@ -751,9 +784,16 @@ def build(include=None, stubset=(), spec_paths=None, shim_paths=None, out_path=N
     names = []
     for t in specs.axioms:
         names += re.findall(r"broadcast\s+(?:axiom|proof)\s+fn\s+(\w+)", t)
-    out.add("pub mod rp_axioms {\nuse vstd::prelude::*;\nuse crate::shim_prelude::*;\nuse crate::rp_core::*;\nuse crate::rp_core::common::*;\nverus!{\n")
+    out.add("pub mod rp_axioms {\nuse vstd::prelude::*;\nuse crate::shim_prelude::*;\nuse crate::rp_core::*;\nuse crate::rp_core::common::*;\n#[allow(unused_imports)] use std::array::TryFromSliceError;\nverus!{\n")
     for t in specs.axioms:
         out.add(t + "\n", {"file": "contracts", "part": "axioms"})
+    for (rel, en, v, t, ctor) in ctx.gen_axioms:
+        mp = "crate::" + "::".join(("rp_core" if (i == 0 and x == "core") else x) for i, x in enumerate(rel[:-3].split("/")))
+        nm = "ax_from_%s_%s" % (en, v)
+        names.append(nm)
+        out.add("// `?` conversion (FromResidual -> From::from) for the synthesised #[from] impl (D-4)\n"
+                "pub broadcast axiom fn %s(e: %s, ret: %s::%s) requires #[trigger] vstd::std_specs::control_flow::spec_from::<%s::%s, %s>(e, ret) ensures ret == (%s::%s::%s%s);\n"
+                % (nm, t, mp, en, mp, en, t, mp, en, v, ctor), {"file": rel, "part": "gen_axiom"})
     out.add("pub broadcast group group_rp { %s }\n}\n}\n" % ", ".join(names))
     out.add("pub mod rp_spec {\nuse vstd::prelude::*;\nuse crate::shim_prelude::*;\nuse crate::rp_axioms::*;\nuse crate::rp_core::*;\nuse crate::rp_core::common::*;\nverus!{\n")
     for t in specs.specdefs:
